@@ -418,6 +418,14 @@ def render(doc):
                 x = codecs_bomless('x', eff)
                 data = data[:-len(nl)] + (x * len(nl))[:len(nl)]
 
+            if d == 'dos-final-lf-only':
+                # a DOS section whose last line ends in a bare LF: same
+                # length, the CR replaced by an ordinary character
+                lf = spec.nl_bytes('unix', eff)
+                x = codecs_bomless('x', eff)
+                data = data[:-len(nl)] + (x * len(lf))[:len(nl) - len(lf)] \
+                    + lf
+
             ind = s.get('indent') if kind == 'preamble' else None
 
             if kind == 'preamble':
@@ -661,6 +669,11 @@ def applicable_defects(doc):
         out.append((i, 'missing-length'))
         out.append((i, 'no-final-newline'))
         out.append((i, 'le-c64'))
+
+        if s['kind'] == 'dos' and (s.get('declare_le') or (
+                kind != 'meta' and len(s['lines']) >= 2)):
+            # (an undeclared one-line text ending in LF simply is unix)
+            out.append((i, 'dos-final-lf-only'))
 
         if kind == 'meta':
             out.append((i, 'format-html'))
